@@ -29,11 +29,13 @@ VARIABLES
   got,       \* [Links -> [S |-> Seq(unit), R |-> Seq(unit)]] complete units each of our ends consumed (history)
   winner,    \* S's Common._winner: a link or "-"
   result,    \* [S |-> link | "-" | "failed", R |-> ...]  what connect() returned
-  started,   \* connect() has been called on both
+  started,   \* [S |-> BOOLEAN, R |-> BOOLEAN] connect() has been called (the listener exists from get_connection_hints() on,
+             \* so an inbound connection may arrive - and win - before the local connect())
+  rwin,      \* the link on which R's negotiation succeeded first ("-" = none): what R's listener Deferred fired with
   scriptPos, \* [Links -> Nat] how much of Script the outsider has sent
   deadline,  \* [S |-> BOOLEAN, R |-> BOOLEAN] the 2*TIMEOUT timer of that party has fired
   last
-vars == <<st, buf, wire, sent, got, winner, result, started, scriptPos, deadline, last>>
+vars == <<st, buf, wire, sent, got, winner, rwin, result, started, scriptPos, deadline, last>>
 
 Party == {"S", "R"}
 Other(p) == IF p = "S" THEN "R" ELSE "S"
@@ -50,7 +52,7 @@ Init ==
   /\ wire = [l \in Links |-> [toS |-> <<>>, toR |-> <<>>]]
   /\ sent = [l \in Links |-> [S |-> <<>>, R |-> <<>>]]
   /\ got = [l \in Links |-> [S |-> <<>>, R |-> <<>>]]
-  /\ winner = "-" /\ result = [S |-> "-", R |-> "-"] /\ started = FALSE
+  /\ winner = "-" /\ result = [S |-> "-", R |-> "-"] /\ started = [S |-> FALSE, R |-> FALSE] /\ rwin = "-"
   /\ scriptPos = [l \in Links |-> 0] /\ deadline = [S |-> FALSE, R |-> FALSE]
   /\ last = <<"Init", "-", "-">>
 
@@ -67,15 +69,19 @@ Write(w, s, l, p, u) ==
 \* relay links: each of our ends first sends its please-relay line and waits for "ok"
 StartState(l) == IF Kind[l] = "relay" THEN "relay" ELSE "handshake"
 StartUnit(l, p) == IF Kind[l] = "relay" THEN "PR" ELSE MyHS(p)
+\* who dials: S for s2r, R for r2s, both for the relay, the outsider for the rest; dialling happens in connect()
+DialersStarted(l) == CASE Kind[l] = "s2r" -> started.S [] Kind[l] = "r2s" -> started.R
+                       [] Kind[l] = "relay" -> started.S /\ started.R [] OTHER -> TRUE
 Established(l) ==
-  /\ started /\ st[l].S = "-" /\ st[l].R = "-"
-  /\ \A p \in Party : result[p] = "-" \/ ~HasEnd(l, p)      \* a party that is done no longer dials or accepts
+  /\ DialersStarted(l) /\ st[l].S = "-" /\ st[l].R = "-"
+  \* a party that is done no longer dials or accepts (its listener stops when the listener Deferred fires)
+  /\ \A p \in Party : (result[p] = "-" /\ (IF p = "S" THEN winner ELSE rwin) = "-") \/ ~HasEnd(l, p)
   /\ st' = [st EXCEPT ![l] = [S |-> IF HasS(l) THEN StartState(l) ELSE "-", R |-> IF HasR(l) THEN StartState(l) ELSE "-"]]
   /\ LET w1 == IF HasS(l) THEN Write(wire, sent, l, "S", StartUnit(l, "S")) ELSE [w2 |-> wire, s2 |-> sent]
          w2 == IF HasR(l) THEN Write(w1.w2, w1.s2, l, "R", StartUnit(l, "R")) ELSE w1 IN
      wire' = w2.w2 /\ sent' = w2.s2
   /\ last' = <<"Established", l, "-">>
-  /\ UNCHANGED <<buf, got, winner, result, started, scriptPos, deadline>>
+  /\ UNCHANGED <<buf, got, winner, rwin, result, started, scriptPos, deadline>>
 
 \* the relay has both please-relay lines: it answers "ok" to both and from then on only forwards
 RelayOk(l) ==
@@ -83,7 +89,7 @@ RelayOk(l) ==
   /\ Head(wire[l].toS) = "PR" /\ Head(wire[l].toR) = "PR"
   /\ wire' = [wire EXCEPT ![l] = [toS |-> <<"ok">> \o Tail(@.toS), toR |-> <<"ok">> \o Tail(@.toR)]]
   /\ last' = <<"RelayOk", l, "-">>
-  /\ UNCHANGED <<st, buf, sent, got, winner, result, started, scriptPos, deadline>>
+  /\ UNCHANGED <<st, buf, sent, got, winner, rwin, result, started, scriptPos, deadline>>
 
 \* ---- cancel every other contender of party p (there_can_be_only_one._succeeded / cancel) ----------------
 CancelOthers(s, p, keep) ==
@@ -108,13 +114,13 @@ Consume(l, p, u) ==
               \* every other contender of S is cancelled
               LET w == Write(wire, sent, l, p, "go") IN
               [st |-> CancelOthers([st EXCEPT ![l][p] = "records"], "S", l), wire |-> w.w2, sent |-> w.s2,
-               winner |-> l, result |-> [result EXCEPT !.S = IF @ = "-" THEN l ELSE @]]
+               winner |-> l, result |-> [result EXCEPT !.S = IF @ = "-" /\ started.S THEN l ELSE @]]
          ELSE LET w == Write(wire, sent, l, p, "nevermind") IN
               [st |-> [st EXCEPT ![l][p] = "hung up"], wire |-> w.w2, sent |-> w.s2, winner |-> winner, result |-> result]
     [] s0 = "wait-for-decision" ->
          IF u = "go"
          THEN [st |-> CancelOthers([st EXCEPT ![l][p] = "records"], "R", l), wire |-> wire, sent |-> sent, winner |-> winner,
-               result |-> [result EXCEPT !.R = IF @ = "-" THEN l ELSE @]]
+               result |-> [result EXCEPT !.R = IF @ = "-" /\ started.R THEN l ELSE @]]
          ELSE [st |-> [st EXCEPT ![l][p] = "hung up"], wire |-> wire, sent |-> sent, winner |-> winner, result |-> result]
     [] OTHER -> [st |-> st, wire |-> wire, sent |-> sent, winner |-> winner, result |-> result]    \* records / hung up: not negotiation
 
@@ -124,6 +130,7 @@ Deliver(l, p) ==
   /\ LET u == Head(wire[l][Dir(p)])
          r == Consume(l, p, u) IN
      /\ st' = r.st /\ sent' = r.sent /\ winner' = r.winner /\ result' = r.result
+     /\ rwin' = IF rwin = "-" /\ p = "R" /\ st[l].R = "wait-for-decision" /\ u = "go" THEN l ELSE rwin
      /\ wire' = [r.wire EXCEPT ![l][Dir(p)] = Tail(@)]
      /\ got' = [got EXCEPT ![l][p] = Append(@, u)]
      /\ buf' = [buf EXCEPT ![l][p] = ""]
@@ -143,7 +150,7 @@ DeliverPart(l, p) ==
      THEN buf' = [buf EXCEPT ![l][p] = "part"] /\ st' = st
      ELSE buf' = buf /\ st' = [st EXCEPT ![l][p] = "hung up"]
   /\ last' = <<"DeliverPart", l, p>>
-  /\ UNCHANGED <<wire, sent, got, winner, result, started, scriptPos, deadline>>
+  /\ UNCHANGED <<wire, sent, got, winner, rwin, result, started, scriptPos, deadline>>
 
 \* ---- outsiders ------------------------------------------------------------------------------------------
 OutsiderSend(l) ==
@@ -154,7 +161,7 @@ OutsiderSend(l) ==
      wire' = [wire EXCEPT ![l][Dir(p)] = Append(@, u)]
   /\ scriptPos' = [scriptPos EXCEPT ![l] = @ + 1]
   /\ last' = <<"OutsiderSend", l, "-">>
-  /\ UNCHANGED <<st, buf, sent, got, winner, result, started, deadline>>
+  /\ UNCHANGED <<st, buf, sent, got, winner, rwin, result, started, deadline>>
 
 \* ---- loss -------------------------------------------------------------------------------------------------
 \* a hung-up end closes its socket: the other end (if ours) sees connectionLost; so does a cut
@@ -166,22 +173,27 @@ PeerGone(l, p) ==
   /\ wire' = IF PeerIsOurs(l) /\ Closed(st[l][Other(p)]) /\ wire[l][Dir(p)] = <<>>
              THEN wire ELSE [wire EXCEPT ![l] = [toS |-> <<>>, toR |-> <<>>]]
   /\ last' = <<"PeerGone", l, p>>
-  /\ UNCHANGED <<buf, sent, got, winner, result, started, scriptPos, deadline>>
+  /\ UNCHANGED <<buf, sent, got, winner, rwin, result, started, scriptPos, deadline>>
 
 \* ---- connect() and its deadline ----------------------------------------------------------------------------
-Start == /\ ~started /\ started' = TRUE /\ last' = <<"Start", "-", "-">>
-         /\ UNCHANGED <<st, buf, wire, sent, got, winner, result, scriptPos, deadline>>
+\* connect(): if an inbound connection has already won, the listener Deferred has fired: there_can_be_only_one
+\* returns that connection at once and cancels the contenders connect() has just created
+Won(p) == IF p = "S" THEN winner ELSE rwin
+Start(p) == /\ ~started[p] /\ started' = [started EXCEPT ![p] = TRUE]
+            /\ result' = [result EXCEPT ![p] = IF Won(p) # "-" THEN Won(p) ELSE @]
+            /\ last' = <<"Start", p, "-">>
+            /\ UNCHANGED <<st, buf, wire, sent, got, winner, rwin, scriptPos, deadline>>
 
 \* _not_forever(2*TIMEOUT): cancel everything that is still negotiating; connect() fails unless it already fired
 Deadline(p) ==
-  /\ started /\ ~deadline[p] /\ result[p] = "-"
+  /\ started[p] /\ ~deadline[p] /\ result[p] = "-"
   /\ deadline' = [deadline EXCEPT ![p] = TRUE]
   /\ result' = [result EXCEPT ![p] = "failed"]
   /\ st' = CancelOthers(st, p, "-")
   /\ last' = <<"Deadline", p, "-">>
-  /\ UNCHANGED <<buf, wire, sent, got, winner, started, scriptPos>>
+  /\ UNCHANGED <<buf, wire, sent, got, winner, rwin, started, scriptPos>>
 
-Next == Start \/ (\E l \in Links : Established(l) \/ RelayOk(l) \/ OutsiderSend(l)
+Next == (\E p \in Party : Start(p)) \/ (\E l \in Links : Established(l) \/ RelayOk(l) \/ OutsiderSend(l)
                                    \/ \E p \in Party : Deliver(l, p) \/ DeliverPart(l, p) \/ PeerGone(l, p))
         \/ (\E p \in Party : Deadline(p))
 Spec == Init /\ [][Next]_vars /\ WF_vars(Next)
@@ -205,4 +217,6 @@ OthersClosed == \A p \in Party : \A l \in Links :
 \* connect() does not hang: after its deadline the party has an answer
 DeadlineDecides == \A p \in Party : deadline[p] => result[p] # "-"
 NoHang == <>(\A p \in Party : result[p] # "-")
+\* the connection a party's negotiation settled on is what its connect() returns, whenever connect() is called
+WinnerReturned == \A p \in Party : (started[p] /\ Won(p) # "-") => result[p] = Won(p)
 ====
